@@ -28,7 +28,7 @@ HERE = os.path.dirname(os.path.abspath(__file__))
 LIBS = ["testcel_celeritas", "testcel_harness", "testcel_core", "testcel_geocel",
         "celeritas", "orange", "geocel", "corecel"]
 
-MODEL_FILES = ["Gather", "Loop", "Multi"]     # executable model (no proofs), extracted by C17/Extract.v
+MODEL_FILES = ["Gather", "Loop", "Multi", "Copy"]     # executable model (no proofs), extracted by C17/Extract.v
 
 NBITS = 17
 ALL = (1 << NBITS) - 1
@@ -256,17 +256,44 @@ def gen_unit_config(r, idx):
     cfg["streams"] = (ns, r.choice([0, 1, 1, 2, 3]), r.randrange(ns))
     iters = []
     consistent = True
-    for _ in range(r.choice([2, 4, 7])):
+    # hit patterns for the reused DetectorStepOutput: sequences of calls with some / all / no
+    # in-detector steps (None = unconstrained)
+    pattern = None
+    if det and r.random() < 0.6:
+        pattern = r.choice([["some", "none", "some"], ["all", "none"], ["none", "none"],
+                            ["some", "none", "none", "some"], ["all", "none", "all", "none"],
+                            ["none", "some", "none"]])
+    nondet = [v for v in P["vols"] if v not in det]
+    nzf = bool(cfg["ifaces"][0]["nonzero"])
+    n_it = len(pattern) if pattern else r.choice([2, 4, 7])
+    cfg["pattern"] = pattern
+    for k_it in range(n_it):
         pre, post = {}, {}
+        pat = pattern[k_it] if pattern else None
         for sl in range(cfg["slots"]):
             c = r.random()
-            if c < 0.25:
+            if pat is None and c < 0.25:
+                continue
+            if pat == "some" and sl > 0 and c < 0.4:
+                continue
+            if pat == "none" and not nondet and not nzf:
+                continue        # only inactive slots can avoid a hit
+            if pat == "none" and c < 0.3:
                 continue
             a_on, b_on = True, True
-            if c > 0.93:
+            if pat is None and c > 0.93:
                 a_on, b_on = r.choice([(True, False), (False, True)])
                 consistent = False
             vol = r.choice(P["vols"])
+            force_zero = False
+            if pat == "all" or (pat == "some" and sl == 0):
+                vol = r.choice(sorted(det))
+            elif pat == "none":
+                if nondet and (not nzf or r.random() < 0.5):
+                    vol = r.choice(nondet)
+                else:
+                    vol = r.choice(sorted(det))
+                    force_zero = True
             pid = r.randrange(P["np"])
             if a_on:
                 pre[sl] = {"status": 3 if r.random() < 0.03 else 2, "t": r.uniform(0, 1e-8),
@@ -287,6 +314,12 @@ def gen_unit_config(r, idx):
                             "t": r.uniform(0, 1e-8), "pos": bpos, "dir": bdir, "pid": pid,
                             "e": r.choice([0.0, 10 ** r.uniform(-3, 2)]),
                             "edep": r.choice([0.0, 0.0, 10 ** r.uniform(-4, 1), 5e-324]), "exit": int(ex)}
+                if pat == "none" and force_zero:
+                    post[sl]["edep"] = 0.0
+                if pat == "all" or (pat == "some" and sl == 0):
+                    post[sl]["edep"] = 10 ** r.uniform(-4, 1)
+                    post[sl]["status"] = r.choice([2, 4])
+                    pre[sl]["status"] = 2
         iters.append((pre, post))
     cfg["iters"] = iters
     cfg["consistent"] = consistent
@@ -334,6 +367,7 @@ class Dump:
         self.views = collections.defaultdict(dict)     # (iter, iface) -> {field: [tokens]}
         self.view_calls = collections.Counter()
         self.detout = collections.defaultdict(dict)
+        self.hits = {}
         self.pre = collections.defaultdict(list)       # iter -> [tokens per slot]
         self.post = collections.defaultdict(list)
         self.iters = []
@@ -353,6 +387,8 @@ class Dump:
                     self.views[key][t[3]] = t[4:]
             elif k == "DETOUT":
                 self.detout[(int(t[1]), int(t[2]))][t[3]] = t[4:]
+            elif k == "HITS":
+                self.hits[(int(t[1]), int(t[2]))] = t[3:]
             elif k == "PRE":
                 self.pre[int(t[1])].append(t[3:])
             elif k == "POST":
@@ -374,6 +410,7 @@ class ModelOut:
         self.detout = collections.defaultdict(dict)
         self.final = {}
         self.loop = {}
+        self.hits = {}
         for line in text.splitlines():
             t = line.split()
             if not t:
@@ -385,6 +422,8 @@ class ModelOut:
                 self.spec[int(t[1])].append(t[2:])
             elif k == "MDETOUT":
                 self.detout[int(t[1])][t[2]] = t[3:]
+            elif k == "MHITS":
+                self.hits[int(t[1])] = t[2:]
             elif k in ("MCALO", "MACTION", "MACTIONSKIP", "MSTEPDIAG", "MLOOPEND",
                        "MCALOTOTAL", "MACTIONTOTAL", "MSTEPDIAGTOTAL"):
                 self.final[k] = t[1:]
@@ -511,6 +550,22 @@ def check_config(ctx, cfg, out_text, model_text, np_, stats):
             if cfg["ifaces"][k].get("copy"):
                 o = d.detout.get(key, {})
                 stats["detout"] += 1
+                # HitProcessor-style consumer on the REUSED output: what it scores must be the
+                # delivered-steps spec of this iteration, each step exactly once (C17_scored_hits_exact)
+                hits = d.hits.get(key, [])
+                stats["hits-iterations"] += 1
+                stats["hits-scored"] += len(hits) // 2
+                prev_hits = d.hits.get((it - 1, k), []) if (it - 1) in d.iters else []
+                if prev_hits and not spec:
+                    stats["hits-then-none"] += 1
+                exp_hits = [x for rec in spec for x in (rec[2], rec[1])]
+                if it not in inconsistent and hits != exp_hits:
+                    bad("property", "hits scored from the reused DetectorStepOutput are not the steps that happened "
+                        "(iteration %d, callback %d): each in-detector step must be scored exactly once" % (it, k),
+                        scored=hits, steps_that_happened=exp_hits, scored_in_previous_iteration=prev_hits)
+                if hits != m.hits.get(it, []):
+                    bad("correspondence", "scored hits differ from the model (iteration %d)" % it,
+                        impl=hits, model=m.hits.get(it, []))
                 oracle = compaction_from_view(v)
                 for f, vals in o.items():
                     exp = oracle.get(f, [])
@@ -996,4 +1051,4 @@ def run(ctx):
     ctx.coverage["delivered_records_checked"] = int(stats["records"])
     ctx.coverage["tallies_checked"] = {k: int(stats[k]) for k in
                                        ("calo", "calo-stream", "actiondiag", "actiondiag-stream", "stepdiag", "stepdiag-stream", "detout",
-                                        "calo-multistream", "diag-multistream", "params", "params-rejected", "loop", "loop-records", "loop-deaths", "loop-running-count", "loop-inits-at-start", "loop-secondaries-in-place", "stepdiag-hist", "loop-skipped-errored")}
+                                        "hits-iterations", "hits-scored", "hits-then-none", "calo-multistream", "diag-multistream", "params", "params-rejected", "loop", "loop-records", "loop-deaths", "loop-running-count", "loop-inits-at-start", "loop-secondaries-in-place", "stepdiag-hist", "loop-skipped-errored")}
